@@ -69,13 +69,16 @@ def canon_metrics():
 def menu_for(k):
     """Per-kernel menu of registrations (<= 5)."""
     lo = k.loop_order()
-    menu = [(r, "iter") for r in lo[:3]]
     shared = [r for r in lo if sum(1 for ranks in k.ins if r.split(".")[0] in ranks) > 1]
-    if shared:
-        menu.append((shared[0], "intersect_0"))
     outs = [r for r in lo if r.split(".")[0] in k.out]
+    extra = []
+    if shared:
+        extra.append((shared[0], "intersect_0"))
     if outs:
-        menu.append((outs[-1], "populate_write_0"))
+        # the outermost output rank is the one a reduction-outer dataflow revisits
+        extra.append((outs[0], "populate_write_0"))
+        extra.append((outs[0], "populate_read_0"))
+    menu = [(r, "iter") for r in lo[:5 - len(extra)]] + extra
     return menu[:5]
 
 
@@ -247,6 +250,92 @@ def shard_explicit(acc, shard, nshards, params):
                     yield (name, specs, order, style)
     core.drive(acc, "explicit", case_explicit, gen(), shard, nshards,
                family="%s[operands with explicit defaults / empty sub-fibers]" % name)
+
+
+def case_assign_leaf(case):
+    """Z_m = A_m + B_m in the union idiom: z_m << (a_m | b_m), z_ref <<= a_val + b_val.
+    Every loop body executes one + and one in-place update (<<=)."""
+    av, bv = case
+    n = len(av)
+    out = []
+    feats = {"idiom:union-assign"}
+    if any(x + y == 0 and (x or y) for x, y in zip(av, bv)):
+        feats.add("cancelling_sum")
+    prefix = os.path.join(core.scratch(), "c15a")
+
+    def kernel():
+        A = Tensor.fromUncompressed(["M"], list(av), shape=[n], name="A")
+        B = Tensor.fromUncompressed(["M"], list(bv), shape=[n], name="B")
+        Z = Tensor(rank_ids=["M"], shape=[n], name="Z")
+        bodies = 0
+        for m, (z_ref, (mask, a_val, b_val)) in Z.getRoot() << (A.getRoot() | B.getRoot()):
+            z_ref <<= a_val + b_val
+            bodies += 1
+        from mc.obs import content
+        return content(Z), bodies
+    try:
+        off, bodies0 = kernel()
+        exp = {(i,): x + y for i, (x, y) in enumerate(zip(av, bv)) if x + y != 0}
+        if off != exp:
+            out.append(("kernel", "result-differs-from-dense", feats, exp, off))
+        Metrics.beginCollect(prefix)
+        try:
+            Metrics.trace("M", type_="iter")
+            on, bodies = kernel()
+        finally:
+            Metrics.endCollect()
+        dump = Metrics.dump()
+        files = _files(prefix)
+        if on != off or bodies != bodies0:
+            out.append(("transparency", "output-differs-with-collection-on", feats, off, on))
+        for op, want in (("add", bodies), ("update", bodies), ("mul", 0)):
+            got = Compute.numOps(dump, op) if "Compute" in dump else 0
+            if got != want:
+                out.append(("numOps", "count-" + op, feats, want, got))
+        if "M-iter.csv" in files:
+            n_rows = len([ln for ln in files["M-iter.csv"].splitlines() if ln.strip()]) - 1
+            if n_rows != bodies:
+                out.append(("numIters", "iteration-count", feats, bodies, n_rows))
+        elif bodies:
+            out.append(("numIters", "trace-file-missing", feats, bodies, None))
+        if bodies:
+            core.CUR.nt("assign-leaf")
+    except Exception as ex:
+        if Metrics.isCollecting():
+            try:
+                Metrics.endCollect()
+            except Exception:
+                Metrics.collecting = False
+        _files(prefix)
+        out.append(("kernel-under-collection", "exception:" + type(ex).__name__,
+                    feats | {"site:" + core.exc_site(ex)}, None, core.tb_tail(ex)))
+    return out
+
+
+def shard_assign_leaf(acc, shard, nshards, params):
+    n, alphabet = params
+    u = list(itertools.product(alphabet, repeat=n))
+    core.drive(acc, "assign_leaf", case_assign_leaf, ((a, b) for a in u for b in u), shard, nshards,
+               family="union-assign[N=%d,entries=%s]" % (n, list(alphabet)))
+
+
+def shard_cancel(acc, shard, nshards, params):
+    """matmul with cancelling products: A over {-1,0,1}, B over {0,1}; every loop order, two-finger;
+    registrations: none, all, each single one."""
+    name = "matmul"
+    out, ins = EXPRS[name]
+    shapes = shapes_for(name)
+    orders = list(itertools.permutations(index_vars(ins)))
+
+    def gen():
+        for a in all_values(ins[0], shapes, (-1, 0, 1)):
+            for b in all_values(ins[1], shapes, (0, 1)):
+                for order in orders:
+                    nmenu = len(menu_for(Kernel(out, ins, order, {}, "two-finger")))
+                    for mask in sorted(set([0, (1 << nmenu) - 1] + [1 << i for i in range(nmenu)])):
+                        yield (name, (a, b), order, (), "two-finger", mask)
+    core.drive(acc, "kernel", case_kernel, gen(), shard, nshards,
+               family="matmul[A in {-1,0,1}, B in {0,1}: cancelling partial sums]", deadline=params)
 
 
 def shard_kernels(acc, shard, nshards, params):
@@ -424,7 +513,8 @@ def key(S):
     return canon_metrics()
 
 
-CASES = {"history": bfs.replay_case, "kernel": case_kernel, "explicit": case_explicit}
+CASES = {"history": bfs.replay_case, "kernel": case_kernel, "explicit": case_explicit,
+         "assign_leaf": case_assign_leaf}
 
 
 def run(ctx):
@@ -449,6 +539,12 @@ def run(ctx):
         ctx.bounds["explicit-operands"] = ("rowsum, sumall, colsum, matvec, elem over operand trees of T2(2,2,{-,0,1}) / F1(2,{-,0,1}) "
                                            "(explicit defaults, empty and zero-only sub-fibers), every concordant loop order, both "
                                            "styles, every loop rank traced")
+    if not ctx.only or "cancel" in ctx.only:
+        ctx.shards(shard_cancel, time.time() + (90 if q else 600))
+        ctx.bounds["cancel"] = "matmul 2x2x2, A over {-1,0,1}, B over {0,1}, every loop order, registrations none / all / each single"
+    if not ctx.only or "assign" in ctx.only:
+        ctx.shards(shard_assign_leaf, (3, (-1, 0, 1, 2)) if q else (4, (-1, 0, 1, 2)))
+        ctx.bounds["union-assign"] = "Z_m = A_m + B_m through z << (a | b) and z_ref <<= a + b, all vector pairs over {-1,0,1,2}"
     if not ctx.only or "sessions" in ctx.only:
         info = bfs.explore(ctx.acc, SPEC, [("pristine",)], "sessions", max_depth=None,
                            deadline=time.time() + 300)
